@@ -294,6 +294,18 @@ def r01_5(ctx, A):
                     if l is not None and l[0] == 'agg' and l[1].endswith('Option::Some') and l[2][0][1][0] == 'agg':
                         lt = dict(l[2][0][1][2])
                         rest = is_call(lt.get('out'), 'Output::zero') and any(is_call(x, '::next') for x in walk(lt.get('inp')))
+                if isinstance(callee, str) and (callee.endswith('::extend') or callee.endswith('::extend_from_slice')) and arg_loc(f, t, 0) is not None and arg_loc(f, t, 0)[-1:] == ('stack',):
+                    # stack.extend(bs[1..].iter().map(|&b| Frame { node: default, last: Some(LastTransition { inp: b, out: zero }) }))
+                    for x in walk(args[1]):
+                        if x[0] == 'closure' and x[1] in lib.fns:
+                            rr = [q.ret() for q in explore(lib.fns[x[1]], max_visits=1) if q.end == 'return']
+                            if len(rr) == 1 and rr[0][0] == 'agg':
+                                l = dict(rr[0][2]).get('last')
+                                if l is not None and l[0] == 'agg' and l[1].endswith('Option::Some') and l[2][0][1][0] == 'agg':
+                                    lt = dict(l[2][0][1][2])
+                                    src_ok = any(y[0] == 'index' or (y[0] == 'call' and 'Index' in str(y[1])) for y in walk(args[1])) and \
+                                        any(y[0] == 'agg' and y[1].endswith('RangeFrom') and dict(y[2]).get('start') == ('const', 1) for y in walk(args[1]))
+                                    rest = is_call(lt.get('out'), 'Output::zero') and any(y[0] == 'param' and y[2] == 2 for y in walk(lt.get('inp'))) and src_ok
                 if isinstance(callee, str) and callee.endswith('::push_empty'):
                     fin = args[1] == ('const', 1)
         ctx.check(R, first and rest and fin, 'add-suffix', 'a new suffix must put the remaining output on its FIRST transition, zero on the others, and end in a final node (first %s, rest %s, final %s)' % (first, rest, fin), fn=f)
